@@ -51,6 +51,51 @@ func (e *Enc) contractAtCall(callee *ssa.Function) *FuncContract {
 }
 
 func (e *Enc) call(fr *Frame, x *ssa.Call, st *State) {
+	if e.yieldParam != nil {
+		// the protocol callback handed on to somebody else: that callee may call it (as long as it has not said stop)
+		isY := e.tb.False()
+		for _, a := range x.Common().Args {
+			if _, lit := a.(*ssa.MakeClosure); lit {
+				continue
+			}
+			if v := e.val(fr, a); len(v.T) == 1 && v.T[0].sort == "Fn" {
+				isY = e.tb.Or(isY, e.tb.Eq(v.T[0], e.yieldParam))
+			}
+		}
+		if !e.tb.isFalse(isY) {
+			stopped := e.yieldStopped(st)
+			e.call0(fr, x, st)
+			e.setYield(st, e.tb.Ite(isY, e.tb.Fresh("yieldstopped", "Bool"), e.yieldStopped(st)), e.tb.Or(e.yieldBad(st), e.tb.And(isY, stopped)))
+			e.modelled("a callee that is handed the `yields` callback calls it only during the call and never after it returned false (protocol of the callee, assumed)")
+			return
+		}
+	}
+	e.call0(fr, x, st)
+}
+
+// the two ghost registers of the `yields` protocol: the callback has returned false / it was called after that
+func (e *Enc) yieldReg(which string) *regInfo {
+	return e.ghostReg("$yield"+which, "Int", "Bool", types.Typ[types.Bool])
+}
+func (e *Enc) yieldStopped(st *State) *Term {
+	return e.tb.Select(e.reg(st, e.yieldReg("stopped")), e.tb.Int(0))
+}
+func (e *Enc) yieldBad(st *State) *Term {
+	return e.tb.Select(e.reg(st, e.yieldReg("bad")), e.tb.Int(0))
+}
+func (e *Enc) setYield(st *State, stopped, bad *Term) {
+	rs, rb := e.yieldReg("stopped"), e.yieldReg("bad")
+	e.setReg(st, rs, e.tb.Store(e.reg(st, rs), e.tb.Int(0), stopped))
+	e.setReg(st, rb, e.tb.Store(e.reg(st, rb), e.tb.Int(0), bad))
+}
+func (e *Enc) havocYield(st *State) {
+	if e.yieldParam == nil {
+		return
+	}
+	e.setYield(st, e.tb.Fresh("yieldstopped", "Bool"), e.tb.Fresh("yieldbad", "Bool"))
+}
+
+func (e *Enc) call0(fr *Frame, x *ssa.Call, st *State) {
 	c := x.Common()
 	var args []Val
 	if c.IsInvoke() {
@@ -76,6 +121,15 @@ func (e *Enc) call(fr *Frame, x *ssa.Call, st *State) {
 	}
 	// closure created in this frame and called directly: inline it with its bindings
 	if mc, ok := c.Value.(*ssa.MakeClosure); ok && e.inlinable(callee) {
+		var binds []Val
+		for _, b := range mc.Bindings {
+			binds = append(binds, e.val(fr, b))
+		}
+		e.inlineCall(fr, x, callee, args, binds, st)
+		return
+	}
+	if mc, ok := c.Value.(*ssa.MakeClosure); ok && callee.Synthetic != "" && strings.HasSuffix(callee.Name(), "$bound") && len(callee.Blocks) == 1 && len(e.stack) < 6 {
+		// a method value called directly (range-over-func over x.Iter): the wrapper only forwards to the method
 		var binds []Val
 		for _, b := range mc.Bindings {
 			binds = append(binds, e.val(fr, b))
@@ -125,7 +179,7 @@ func (e *Enc) call(fr *Frame, x *ssa.Call, st *State) {
 }
 
 func (e *Enc) inlineCall(fr *Frame, x *ssa.Call, callee *ssa.Function, args, binds []Val, st *State) {
-	res, out, sub := e.encodeFunc(callee, args, binds, *st, fr, nil, nil)
+	res, out, sub := e.encodeFunc(callee, args, binds, *st, fr, nil, func(sub *Frame) { sub.callSite = x })
 	// a panic inside the inlined callee is a panic of the caller
 	fr.panics = append(fr.panics, sub.panics...)
 	*st = out
@@ -555,6 +609,23 @@ func (e *Enc) dynamicCall(fr *Frame, x *ssa.Call, st *State, args []Val) {
 		return
 	}
 	e.safetyObl(fr, st, "nilfunc", x.Pos(), isCallExpr, e.tb.Not(e.tb.Eq(f.t(), e.tb.Const("nilFn", "Fn"))))
+	if e.yieldParam != nil {
+		// possibly a call of the protocol callback: calling it after it returned false is the violation; its result is
+		// the new state
+		isY := e.tb.Eq(f.t(), e.yieldParam)
+		stopped, bad := e.yieldStopped(st), e.yieldBad(st)
+		res := e.havocResults(fr, x, "yield")
+		for _, a := range args {
+			e.markEscaped(a.t(), 0)
+		}
+		e.havocAll(st, "call of a function value / the callback "+e.yieldName)
+		now := e.tb.False()
+		if len(res) == 1 && res[0].sort == "Bool" {
+			now = e.tb.Not(res[0])
+		}
+		e.setYield(st, e.tb.Ite(isY, now, stopped), e.tb.Or(bad, e.tb.And(isY, stopped)))
+		return
+	}
 	e.note("dynamic call without type contract: " + c.Value.Type().String())
 	e.havocResults(fr, x, "dyn")
 	for _, a := range args {
@@ -1037,14 +1108,7 @@ func (e *Enc) libraryCall(fr *Frame, x *ssa.Call, callee *ssa.Function, args []V
 func (e *Enc) makeClosure(fr *Frame, x *ssa.MakeClosure, st *State) {
 	tb := e.tb
 	fn := x.Fn.(*ssa.Function)
-	if e.onceCells == nil {
-		e.onceCells = map[*ssa.Function]map[*ssa.Alloc]*ssa.Store{}
-	}
-	once, ok := e.onceCells[fr.fn]
-	if !ok {
-		once = assignedOnceAtEntry(fr.fn)
-		e.onceCells[fr.fn] = once
-	}
+	once := e.onceCellsOf(fr.fn)
 	for _, b := range x.Bindings { // whoever gets the function value can reach the captured variables
 		if a, isAlloc := b.(*ssa.Alloc); isAlloc && once[a] != nil {
 			continue // assigned once at entry and only read by the literals: nobody can change it
@@ -1053,8 +1117,23 @@ func (e *Enc) makeClosure(fr *Frame, x *ssa.MakeClosure, st *State) {
 			e.markEscaped(t, 0)
 		}
 	}
+	if e.yieldParam != nil {
+		for _, b := range x.Bindings {
+			if v := e.val(fr, b); len(v.T) == 1 && (v.T[0] == e.yieldParam || e.yieldCells[v.T[0]]) {
+				if e.yieldLits == nil {
+					e.yieldLits = map[*ssa.MakeClosure]bool{}
+				}
+				if _, seen := e.yieldLits[x]; !seen {
+					e.yieldLits[x] = false
+				}
+			}
+		}
+	}
 	c := tb.Fresh("clo_"+fn.Name(), "Fn")
 	e.assume(tb.True(), tb.Not(tb.Eq(c, tb.Const("nilFn", "Fn"))))
+	if e.yieldParam != nil {
+		e.assume(tb.True(), tb.Not(tb.Eq(c, e.yieldParam))) // a function value created now is not the one passed in
+	}
 	fr.vals[x] = Val{T: []*Term{c}}
 	if e.closureHook != nil {
 		e.closureHook(fr, x, c, st)
@@ -1825,12 +1904,28 @@ func (e *Enc) callbackLoopG(fr *Frame, x *ssa.Call, calleeName string, names []s
 	}
 	var mc *ssa.MakeClosure
 	v := callArgs[pos]
+	wfr, wx := fr, x // the frame and call whose result is set (a wrapper inlined for the call, e.g. a bound method)
 	for mc == nil {
 		switch u := v.(type) {
 		case *ssa.MakeClosure:
 			mc = u
 		case *ssa.ChangeType:
 			v = u.X
+		case *ssa.Parameter:
+			// the callee is called from an inlined wrapper: the literal is an argument of the wrapper's call
+			if fr.callSite == nil || fr.parent == nil {
+				return false
+			}
+			k := -1
+			for i, p := range fr.fn.Params {
+				if p == u {
+					k = i
+				}
+			}
+			if k < 0 || k >= len(fr.callSite.Call.Args) || fr.callSite.Call.IsInvoke() {
+				return false
+			}
+			v, x, fr = fr.callSite.Call.Args[k], fr.callSite, fr.parent
 		default:
 			return false
 		}
@@ -1838,8 +1933,16 @@ func (e *Enc) callbackLoopG(fr *Frame, x *ssa.Call, calleeName string, names []s
 	if _, created := fr.vals[mc]; !created {
 		return false
 	}
+	rangeFunc := mc.Fn.(*ssa.Function).Synthetic == "range-over-func yield"
 	// the caller's clauses for this call
 	site := e.srcText(fr.fn, x.Pos(), isCallExpr)
+	if rangeFunc {
+		// a range-over-func loop: the anchor is the loop header, `range <iterator expression>`
+		site = e.srcText(fr.fn, mc.Fn.Pos(), func(n ast.Node) bool { _, ok := n.(*ast.RangeStmt); return ok })
+		if i := strings.IndexAny(site, "{\n"); i >= 0 {
+			site = site[:i]
+		}
+	}
 	var cb *callbackSpec
 	owner := fr.con
 	for f := fr; f != nil && cb == nil; f = f.parent {
@@ -1928,8 +2031,16 @@ func (e *Enc) callbackLoopG(fr *Frame, x *ssa.Call, calleeName string, names []s
 	}
 	collect(body, 0)
 	if ws.all {
-		e.note("callback literal with unknown effect: " + label)
-		return false
+		e.note("callback literal with unknown effect (whole heap havocked per call): " + label)
+	}
+	// range-over-func: the compiler's state variable of the loop (jump$N): 0 = ready for the next call of the body
+	var jumpAddr *Addr
+	if rangeFunc {
+		for i, fv := range body.FreeVars {
+			if strings.HasPrefix(fv.Name(), "jump$") && i < len(binds) {
+				jumpAddr = &Addr{ref: binds[i].t(), root: types.Typ[types.Int]}
+			}
+		}
 	}
 	havocCells := func(s *State, why string) {
 		for i := range body.FreeVars {
@@ -1958,6 +2069,11 @@ func (e *Enc) callbackLoopG(fr *Frame, x *ssa.Call, calleeName string, names []s
 		}
 	}
 	e.modelled("function literals passed to an iterating function are verified as loop bodies (callee contract `iterates`): " + calleeName)
+	if e.yieldLits != nil {
+		if _, ok := e.yieldLits[mc]; ok {
+			e.yieldLits[mc] = true
+		}
+	}
 	// the enclosing function's frame (assigns clause) is carried through the iteration like through a loop
 	frameRegs := e.loopFrameRegs(fr, ws)
 	if len(frameRegs) > 0 {
@@ -1966,9 +2082,16 @@ func (e *Enc) callbackLoopG(fr *Frame, x *ssa.Call, calleeName string, names []s
 		}
 	}
 	// an arbitrary iteration
+	if jumpAddr != nil {
+		e.oblige("callback-entry", label+".range-ready", st, tb.Eq(e.rootRead(st, jumpAddr), tb.Int(0)), x.Pos()).Text = "range-over-func: the loop is ready for the first call of its body"
+	}
 	iterSt := st.clone()
 	e.havocWrites(&iterSt, ws, "cb_"+sanitize(label))
 	havocCells(&iterSt, "cb")
+	e.havocYield(&iterSt)
+	if jumpAddr != nil {
+		e.assume(iterSt.reach, tb.Eq(e.rootRead(&iterSt, jumpAddr), tb.Int(0)))
+	}
 	if len(frameRegs) > 0 {
 		if f := e.loopFrame(fr, &iterSt, frameRegs); f != nil {
 			e.assume(iterSt.reach, f)
@@ -2022,6 +2145,9 @@ func (e *Enc) callbackLoopG(fr *Frame, x *ssa.Call, calleeName string, names []s
 			e.oblige("callback-preserved", label+".frame", &out, f, x.Pos()).Text = "implicit invariant: the function's frame (assigns clause) is preserved by one call of the literal"
 		}
 	}
+	if jumpAddr != nil {
+		e.oblige("callback-preserved", label+".range-ready", &contSt, tb.Eq(e.rootRead(&contSt, jumpAddr), tb.Int(0)), x.Pos()).Text = "range-over-func: the loop is ready for the next call of its body"
+	}
 	stopSt := out.clone()
 	stopSt.reach = tb.And(out.reach, tb.Not(cont))
 	for k, cl := range cb.stopped {
@@ -2035,6 +2161,10 @@ func (e *Enc) callbackLoopG(fr *Frame, x *ssa.Call, calleeName string, names []s
 	// after the call: all iterations done, or stopped early
 	e.havocWrites(st, ws, "cbdone_"+sanitize(label))
 	havocCells(st, "cbdone")
+	e.havocYield(st)
+	if jumpAddr != nil {
+		e.assume(st.reach, tb.Eq(e.rootRead(st, jumpAddr), tb.Int(0)))
+	}
 	e.assume(st.reach, tb.Le(tb.Int(0), n))
 	if len(frameRegs) > 0 {
 		if f := e.loopFrame(fr, st, frameRegs); f != nil {
@@ -2057,10 +2187,32 @@ func (e *Enc) callbackLoopG(fr *Frame, x *ssa.Call, calleeName string, names []s
 		stopped = tb.False()
 	}
 	e.assume(st.reach, tb.Ite(stopped, stopInv, doneInv))
-	if len(e.tupleTypes(x.Type())) > 0 {
-		e.havocResults(fr, x, "r_"+sanitize(calleeName))
+	if rangeFunc {
+		// the loop was left from inside its body: the state is the one that call of the body left behind (the compiler's
+		// state variable says how the loop was left, the clauses cannot name it)
+		e.assume(tb.And(st.reach, stopped), stopSt.reach)
+		done := st.clone()
+		done.reach = tb.And(st.reach, tb.Not(stopped))
+		left := stopSt.clone()
+		left.reach = tb.And(st.reach, stopped)
+		*st = e.mergeStates(done, left)
+	}
+	if len(e.tupleTypes(wx.Type())) > 0 {
+		e.havocResults(wfr, wx, "r_"+sanitize(calleeName))
 	} else {
-		fr.vals[x] = Val{T: []*Term{tb.True()}}
+		wfr.vals[wx] = Val{T: []*Term{tb.True()}}
 	}
 	return true
+}
+
+func (e *Enc) onceCellsOf(fn *ssa.Function) map[*ssa.Alloc]*ssa.Store {
+	if e.onceCells == nil {
+		e.onceCells = map[*ssa.Function]map[*ssa.Alloc]*ssa.Store{}
+	}
+	once, ok := e.onceCells[fn]
+	if !ok {
+		once = assignedOnceAtEntry(fn)
+		e.onceCells[fn] = once
+	}
+	return once
 }
